@@ -31,6 +31,7 @@ Inductive gname :=
 | S_COMPLEX_TYPES    (* COMPLEX64, COMPLEX128 *)
 | S_NO_TYPE_CHARS    (* single-character type aliases no longer allowed *)
 | S_NO_FILEFRAM      (* FILEFRAM no longer an alias of INDEX *)
+| S_LINCOM_COUNT_OPTIONAL (* the number-of-fields token of LINCOM may be omitted *)
 (* reserved words that may not be used as field names, and the Version that
    ended the restriction by making the slash mandatory *)
 | R_FRAMEOFFSET | R_ENCODING | R_ENDIAN | R_INCLUDE | R_META | R_VERSION | R_PROTECT
@@ -44,7 +45,7 @@ Definition all_gnames : list gname :=
    D_NAMESPACE; D_PROTECT; D_REFERENCE; D_VERSION;
    S_ESCAPES; S_QUOTES; S_META_SLASH; S_SLASH_OPTIONAL; S_SLASH_REQUIRED; S_ENDIAN_ARM;
    S_INT_PREFIX; S_FRAMEOFFSET_PREFIX; S_NEW_TYPES; S_COMPLEX_TYPES; S_NO_TYPE_CHARS;
-   S_NO_FILEFRAM;
+   S_NO_FILEFRAM; S_LINCOM_COUNT_OPTIONAL;
    R_FRAMEOFFSET; R_ENCODING; R_ENDIAN; R_INCLUDE; R_META; R_VERSION; R_PROTECT;
    R_REFERENCE; R_UNTIL].
 
@@ -64,7 +65,7 @@ Definition gname_eqb (a b : gname) : bool :=
   | S_ENDIAN_ARM, S_ENDIAN_ARM | S_INT_PREFIX, S_INT_PREFIX
   | S_FRAMEOFFSET_PREFIX, S_FRAMEOFFSET_PREFIX | S_NEW_TYPES, S_NEW_TYPES
   | S_COMPLEX_TYPES, S_COMPLEX_TYPES | S_NO_TYPE_CHARS, S_NO_TYPE_CHARS
-  | S_NO_FILEFRAM, S_NO_FILEFRAM
+  | S_NO_FILEFRAM, S_NO_FILEFRAM | S_LINCOM_COUNT_OPTIONAL, S_LINCOM_COUNT_OPTIONAL
   | R_FRAMEOFFSET, R_FRAMEOFFSET | R_ENCODING, R_ENCODING | R_ENDIAN, R_ENDIAN
   | R_INCLUDE, R_INCLUDE | R_META, R_META | R_VERSION, R_VERSION | R_PROTECT, R_PROTECT
   | R_REFERENCE, R_REFERENCE | R_UNTIL, R_UNTIL => true
@@ -93,8 +94,9 @@ Definition spec_gate (g : gname) : nat :=
   | D_ENCODING | D_META | D_PROTECT | D_REFERENCE | R_ENCODING | R_META | R_PROTECT
   | R_REFERENCE | T_CONST | T_STRING | S_ESCAPES | S_QUOTES | S_NO_FILEFRAM => 6
   (* "Version 7 ... added the SBIT and POLYNOM field types, and the directive-less method
-     of specifying metafields ... COMPLEX128 and COMPLEX64" *)
-  | T_SBIT | T_POLYNOM | S_META_SLASH | S_COMPLEX_TYPES => 7
+     of specifying metafields ... COMPLEX128 and COMPLEX64 ... Finally, it made the number
+     of fields parameter for LINCOM optional" *)
+  | T_SBIT | T_POLYNOM | S_META_SLASH | S_COMPLEX_TYPES | S_LINCOM_COUNT_OPTIONAL => 7
   (* "Version 8 ... added the DIVIDE, RECIP, and CARRAY field types, made the forward
      slash on reserved words mandatory, and prohibited using the single-character type
      aliases ... introduced the optional second (arm) token to the /ENDIAN directive" *)
